@@ -12,7 +12,7 @@ import contextlib
 
 from qce_circuit.structure.intrf_circuit_operation_composite import CircuitCompositeOperation as _CCO
 
-KF_VALUE_EQUALITY = 'known:composite-value-equality'
+KF_VALUE_EQUALITY = 'composite-value-equality'   # was known finding F2, repaired in /repo (4481396)
 
 
 @contextlib.contextmanager
